@@ -179,7 +179,11 @@ func File(t *rapid.T, o Opts) *ir.File {
 		f.Enums = append(f.Enums, e)
 	}
 	// messages, leaves first
-	nMsg := rapid.IntRange(1, o.MaxMessages).Draw(t, "nmsg")
+	// rapid's integers are biased towards small values: message counts are sampled from a flat table instead
+	nMsg := rapid.SampledFrom([]int{1, 2, 3, 3, 4, 4, 5, 5, 6, 7}).Draw(t, "nmsg")
+	if nMsg > o.MaxMessages {
+		nMsg = o.MaxMessages
+	}
 	used := map[string]bool{"Mode": true, "Level": true, "Color": true}
 	for k := range CastTypes {
 		used[k] = true
@@ -214,6 +218,10 @@ func upper(s string) string {
 	}
 	return string(b)
 }
+
+// kindTable: 0-7 scalar, 8-9 enum, 10-15 message, 16 timestamp, 17 duration (flat sampling; rapid's
+// integer ranges are biased towards their lower end)
+var kindTable = []int{0, 1, 2, 3, 4, 5, 6, 7, 8, 9, 10, 11, 12, 13, 14, 15, 10, 12, 16, 17}
 
 type candidate struct {
 	name  string
@@ -312,7 +320,7 @@ func (g *fileGen) field(m *ir.Message, names *nameSet, embedded map[string]bool,
 		}
 	}
 	// kind
-	kindSel := rapid.IntRange(0, 19).Draw(t, "kindsel")
+	kindSel := rapid.SampledFrom(kindTable).Draw(t, "kindsel")
 	if o.ScalarDense && kindSel >= 10 && rapid.Bool().Draw(t, "dense") {
 		kindSel = rapid.IntRange(0, 9).Draw(t, "kindsel2")
 	}
